@@ -1023,6 +1023,52 @@ pub fn sweep_borrow(prop: &str) -> Vec<Case> {
     cases
 }
 
+/// The same handle given for two parameters of one call (container and entry, subject and result,
+/// rows and meta): legal for a C caller, and whatever the call reads must be read before it writes.
+pub fn sweep_alias(prop: &str) -> Vec<Case> {
+    let mut cases = Vec::new();
+    for spec in SPECS {
+        let hp: Vec<usize> = spec.h.iter().enumerate().filter(|(_, a)| matches!(a, A::In(_) | A::Own(_) | A::Out)).map(|(i, _)| i).collect();
+        if hp.len() < 2 {
+            continue;
+        }
+        for i in 0..hp.len() {
+            for j in i + 1..hp.len() {
+                // the shared handle has the kind the first of the two parameters wants (for an
+                // out-parameter: the kind of the other one)
+                let kind = match (spec.h[hp[i]], spec.h[hp[j]]) {
+                    (A::In(k), _) | (A::Own(k), _) => k,
+                    (_, A::In(k)) | (_, A::Own(k)) => k,
+                    _ => K::Any,
+                };
+                for slot in (0..FIXTURE.len() as i64).filter(|s| kind == K::Any || FIXTURE[*s as usize].0 == kind) {
+                    for filter_slot in [0i64, 1] {
+                        if filter_slot == 1 && !spec.h.contains(&A::InFilter) {
+                            continue;
+                        }
+                        let mut op = default_op(spec, FIX_OUT);
+                        op.h[hp[i]] = slot;
+                        op.h[hp[j]] = slot;
+                        if let Some(p) = spec.h.iter().position(|a| *a == A::InFilter) {
+                            op.h[p] = filter_slot;
+                        }
+                        // the aliased handle is used again afterwards: encoded, and as an entry of a new list
+                        let after = vec![
+                            Op::new(0, "haystack_value_to_zinc_string").h(&[slot, 1]),
+                            Op::new(0, "haystack_value_make_list").h(&[29]),
+                            Op::new(0, "haystack_value_push_list_entry").h(&[29, slot]),
+                        ];
+                        let mut call = vec![op];
+                        call.extend(after);
+                        cases.push(sweep_case(prop, "sweep:alias", format!("{} params {} and {} = slot{slot} filter={filter_slot}", spec.f, hp[i], hp[j]), call));
+                    }
+                }
+            }
+        }
+    }
+    cases
+}
+
 /// Pairs of values that compare equal (`==`) but are not identical (0 and -0, a Ref with another
 /// display name, the same inside a list / dict / grid), stored one over the other through every
 /// entry-updating call: an update must store what it was given, not what compares equal to it.
@@ -1105,7 +1151,7 @@ pub fn sweep_equalish(prop: &str) -> Vec<Case> {
 pub fn sweep_size(prop: &str) -> Vec<Case> {
     let mut cases = Vec::new();
     for n in [0usize, 1, 2, 3, 4, 5, 7, 8, 9, 15, 16, 17, 31, 32, 33, 63, 64, 65] {
-        for variant in 0..6 {
+        for variant in 0..7 {
             let mut ops = vec![Op::new(0, "haystack_value_make_list").h(&[0]), Op::new(0, "haystack_value_make_dict").h(&[1]), Op::new(0, "haystack_value_init").h(&[3])];
             for i in 0..n {
                 ops.push(Op::new(0, "haystack_value_make_number").h(&[2]).n(&[(i as f64).to_bits()]));
@@ -1147,6 +1193,36 @@ pub fn sweep_size(prop: &str) -> Vec<Case> {
                     ops.push(Op::new(0, "haystack_value_get_list_entry_at").h(&[3, 0]).n(&[last]));
                     ops.push(Op::new(0, "haystack_value_push_list_entry").h(&[3, BORROW_BASE]));
                     ops.push(Op::new(0, "haystack_value_push_list_entry").h(&[3, 0]));
+                }
+                6 => {
+                    // grown, then drained to every fraction of its size without asking for the length
+                    // in between; then an entry is borrowed and only read-only calls follow: none of
+                    // them may move the entries
+                    ops.truncate(ops.len() - 2);
+                    let keep = [n / 4, (n / 4).saturating_sub(1), n / 8, 1][(n % 4) as usize].min(n);
+                    for _ in keep..n {
+                        ops.push(Op::new(0, "haystack_value_remove_list_entry_at").h(&[0]).n(&[0]));
+                    }
+                    for i in keep..n {
+                        let key = format!("k{i:02}");
+                        ops.push(Op::new(0, "haystack_value_remove_dict_entry").h(&[1]).s(&[Some(key.as_bytes())]));
+                    }
+                    ops.push(Op::new(0, "haystack_value_get_list_entry_at").h(&[0, 0]).n(&[0]));
+                    ops.push(Op::new(0, "haystack_value_get_dict_entry").h(&[1, 1]).s(&[Some(b"k00")]));
+                    for f in ["haystack_value_get_list_len", "haystack_value_is_list", "haystack_value_get_dict_len", "haystack_value_is_dict"] {
+                        ops.push(Op::new(0, f).h(&[0]));
+                        ops.push(Op::new(0, f).h(&[1]));
+                        ops.push(Op::new(0, "borrow_read").h(&[0]));
+                        ops.push(Op::new(0, "borrow_read").h(&[1]));
+                    }
+                    ops.push(Op::new(0, "haystack_value_get_dict_keys").h(&[1, 3]));
+                    ops.push(Op::new(0, "haystack_value_to_zinc_string").h(&[0, 0]));
+                    ops.push(Op::new(0, "haystack_value_to_json_string").h(&[1, 1]));
+                    ops.push(Op::new(0, "haystack_string_destroy").h(&[0]));
+                    ops.push(Op::new(0, "haystack_string_destroy").h(&[1]));
+                    ops.push(Op::new(0, "haystack_value_get_list_entry_at").h(&[0, 2]).n(&[0]));
+                    ops.push(Op::new(0, "borrow_read").h(&[0]));
+                    ops.push(Op::new(0, "borrow_read").h(&[1]));
                 }
                 4 => {
                     // the containers put into each other and encoded
@@ -1358,7 +1434,7 @@ impl CApi {
     }
 }
 
-const SWEEPS: &[&str] = &["sweep:null", "sweep:kind", "sweep:index", "sweep:errslot", "sweep:borrow", "sweep:zone", "sweep:hostile", "sweep:size", "sweep:equalish"];
+const SWEEPS: &[&str] = &["sweep:null", "sweep:kind", "sweep:index", "sweep:errslot", "sweep:borrow", "sweep:zone", "sweep:hostile", "sweep:size", "sweep:equalish", "sweep:alias"];
 /// sweeps are split into this many units so that they spread over the worker processes
 const SWEEP_PARTS: u64 = 8;
 
@@ -1396,6 +1472,7 @@ impl Engine for CApi {
                 "sweep:hostile" => sweep_hostile(prop),
                 "sweep:size" => sweep_size(prop),
                 "sweep:equalish" => sweep_equalish(prop),
+                "sweep:alias" => sweep_alias(prop),
                 _ => sweep_errslot(prop),
             };
             return Box::new(all.into_iter().enumerate().filter(move |(i, _)| *i as u64 % SWEEP_PARTS == part).map(|(_, c)| c));
